@@ -461,12 +461,15 @@ func emitCase(id string, kind string, r *tbl.Raw, p *plan, qs []string) int {
 		sb.WriteByte(' ')
 		sb.WriteString(t)
 	}
+	before := snapshot(stbl)
 	for _, q := range qs {
 		sb.WriteByte(' ')
 		sb.WriteString(q)
 		sb.WriteByte('=')
 		sb.WriteString(query(bx, q))
 	}
+	// "pu": every field of every table box (unexported ones included) is what it was before the queries
+	sb.WriteString(fmt.Sprintf(" pu=ok/%d", b2i(snapshot(stbl) == before)))
 	fmt.Fprintf(out, "T\t%s\t%s\t%s\t%s\t%s\n", id, kind, r.Encode(), p.Encode(r.HasCtts), sb.String())
 	return len(qs) + len(trace)
 }
@@ -492,6 +495,22 @@ func fixedCases(rng *hx.Rng) int {
 		{Kind: 'a', E: [3]uint32{4, 1, 0}}}, Modes: [5]byte{'L', 'L', 'L', 'L', 'L'}}
 	qs2 := queriesOf(rng, r2, tbl.Expand(r2), qopt{intervals: true, sampleData: true, outOfRange: true, maxAllPairs: 16})
 	total += emitCase("w-zero-id", "M", r2, p2, qs2)
+	// C09_sample_at_time_wrap_refuted: the largest track stsz can describe, 2^32-1 samples in one stts run; a time inside the
+	// last sample gives sample number N+1 = 2^32 -> 0.  (No per-sample expansion, no gd: explicit queries only.)
+	r3 := &tbl.Raw{SttsC: []uint32{0xffffffff}, SttsD: []uint32{2}, StscMode: 'D', Stsc: [][3]uint32{{1, 0xffffffff, 1}},
+		Uniform: 4, Number: 0xffffffff, OffKind: 'S', Offs: []uint64{100}}
+	p3 := decodedPlan(r3)
+	qs3 := []string{"ns", "st:8589934589", "st:8589934588", "st:8589934590", "dt:4294967295", "du:4294967295", "dt:1",
+		"sz:4294967295", "ts:1:4294967295", "cn:4294967295", "gc:1", "cc:1:4294967295", "gr:2:4294967295", "of:1"}
+	total += emitCase("w-stts-wrap", "M", r3, p3, qs3)
+	// C09_decode_time_exact: counts summing to 2^33-2, the decode time of the last uint32 sample number does not wrap
+	r4 := &tbl.Raw{SttsC: []uint32{0xffffffff, 0xffffffff}, SttsD: []uint32{0xffffffff, 7}, StscMode: 'D',
+		Stsc: [][3]uint32{{1, 1, 1}}, Uniform: 4, Number: 5, OffKind: 'S', Offs: []uint64{100}}
+	total += emitCase("w-stts-big", "M", r4, decodedPlan(r4), []string{"dt:4294967295", "dt:4294967294", "du:4294967295", "dt:1"})
+	// C09_stsc_cache_wrap_refuted: FirstSampleNr of the second run wraps to 1
+	r5 := &tbl.Raw{SttsC: []uint32{10}, SttsD: []uint32{1}, StscMode: 'D', Stsc: [][3]uint32{{1, 0x80000000, 1}, {3, 1, 1}},
+		Uniform: 4, Number: 10, OffKind: 'S', Offs: []uint64{100, 200, 300}}
+	total += emitCase("w-stsc-cache-wrap", "M", r5, decodedPlan(r5), []string{"fs", "cn:1", "gc:1", "gc:3", "cn:2147483649"})
 	return total
 }
 
@@ -804,6 +823,19 @@ func search(seed uint64, n int) {
 			curPlan = "N;E/a1.2.1/a3.1.2/a4.1.0;LLLLL"
 			fail("StscBox.AddEntry", "zero-description-id-accepted", r, "sd:4", "panic (AddEntry(4,1,0) returned nil)",
 				"an error from AddEntry (DecodeStscSR refuses id 0)")
+		}
+	}
+	// C09_sample_at_time_wrap_refuted on the real code: 2^32-1 samples (the most stsz can describe), a time inside the last one
+	{
+		st := &mp4.SttsBox{SampleCount: []uint32{0xffffffff}, SampleTimeDelta: []uint32{2}}
+		nr, err := st.GetSampleNrAtTime(8589934589)
+		evals++
+		if err == nil && nr == 0 {
+			r := &tbl.Raw{SttsC: []uint32{0xffffffff}, SttsD: []uint32{2}, StscMode: 'D', Stsc: [][3]uint32{{1, 0xffffffff, 1}},
+				Uniform: 4, Number: 0xffffffff, OffKind: 'S', Offs: []uint64{100}}
+			curPlan = "decode"
+			fail("SttsBox.GetSampleNrAtTime", "sample-number-wraps-at-2^32", r, "st:8589934589", "ok/0 (nil error)",
+				"4294967296 does not fit uint32: an error")
 		}
 	}
 	// the same defect through SetSingleSampleDescriptionID(0): the box had neither a single id nor an id slice
